@@ -89,6 +89,17 @@ def table_models(draw):
                 row[c] = dict(row[c], v=draw(G.mnems()))
         names.append(row[0]['v'])
         rows.append(row)
+    if len(rows) >= 2 and draw(st.integers(0, 3)) == 0:
+        # two row names that differ only in how they are padded (blank / NUL, same length): different names in the file, two rows
+        i = draw(st.integers(0, len(rows) - 1))
+        j = draw(st.integers(0, len(rows) - 1))
+        nm = rows[i][0]['v']
+        if i != j and isinstance(nm, bytes) and len(nm) >= 2:
+            stem = nm.rstrip(b' \x00') or b'A'
+            pads = [stem.ljust(len(nm), b' ')[:len(nm)], stem.ljust(len(nm), b'\x00')[:len(nm)]]
+            if pads[0] != pads[1] and not any(r[0]['v'] in pads for k, r in enumerate(rows) if k not in (i, j)):
+                rows[i][0] = dict(rows[i][0], v=pads[0])
+                rows[j][0] = dict(rows[j][0], v=pads[1])
     return {'lr_type': draw(st.sampled_from(G.LR_TABLE_TYPES)), 'name': draw(G.mnems()), 'columns': cols, 'rows': rows,
             'pr_len': draw(st.one_of(st.integers(16, 64), st.integers(16, 4096)))}
 
@@ -163,6 +174,9 @@ def check_table(case, cc):
     dup = len(expected_rows(model)) != len(rows)
     flat = [c['v'] for r in rows for c in r]
     cc.cls('table-duplicate-row', dup)
+    _nms = [r[0]['v'] for r in rows if isinstance(r[0]['v'], bytes)]
+    cc.cls('table-row-names-differing-in-padding-only', any(a != b and len(a) == len(b) and a.rstrip(b' \x00') == b.rstrip(b' \x00')
+                                                          for k, a in enumerate(_nms) for b in _nms[k + 1:]))
     cc.cls('table-float-cell', any(isinstance(v, float) for v in flat))
     cc.cls('table-int16-cell', any(isinstance(v, int) and not (0 <= v <= 255) and -32768 <= v <= 32767 for v in flat))
     cc.cls('table-int32-cell', any(isinstance(v, int) and not (-32768 <= v <= 32767) for v in flat))
@@ -277,3 +291,4 @@ def parts(tier):
 
 
 RULE += '  Added after the seeding rounds: zero-size entry blocks; column mnemonics that differ only in blank / NUL padding.'
+RULE += '  Round 17: two row names differing only in blank / NUL padding.'
